@@ -15,7 +15,9 @@ LAYOUTS = {
 MORE_MEDIA = [["application/xml", "ref:Err"], ["application/octet-stream", None], ["application/octet-stream", "string"], ["image/png", None],
               ["text/event-stream", "ref:Pet"], ["application/problem+json", "ref:Err"], ["text/html", "string"], ["application/json", None],
               ["application/json", "integer"], ["application/json", "boolean"], ["text/plain", "integer"], ["application/pdf", None], ["*/*", "ref:Pet"],
-              ["application/x-www-form-urlencoded", "ref:Pet"], ["application/json; charset=utf-8", "ref:Pet"], ["text/csv", "ref:Pet"]]
+              ["application/x-www-form-urlencoded", "ref:Pet"], ["application/json; charset=utf-8", "ref:Pet"], ["text/csv", "ref:Pet"],
+              # media types whose NAME falls under the content check of another category than their own
+              ["image/svg+xml", "ref:Pet"], ["application/yaml", "string"], ["text/xml", "ref:Err"], ["application/soap+xml", "ref:Err"], ["audio/mpeg", None], ["application/jsonl", "string"]]
 # every status code that has a named token in StatusCodeToken (kept in step with the regenerated table by `named_codes`)
 def named_codes():
     import os, re
@@ -84,6 +86,27 @@ def cases(ctx):
     return out
 
 
+# ---- decoding clause: "a body that cannot be decoded produces an error result" — the support crate's json_with_diagnostics
+# on in-memory responses (op lex.decode): well-formed documents and the same with something before / after them ---------
+DOCS = ['{"name":"x"}', '{"name":""}', '{"name":"a b"}', ' {"name":"x"} ', '{"name":"x"}\n', '[1,2]', '1', '"s"', 'null', 'true', '{}', '[]', '{"name":1}', '{"name":"x","y":1}', '{"nam":"x"}', '[{"name":"x"}]']
+TAILS = ['', ' ', '\n', '\t\r\n', ' trailing garbage', '{"name":"y"}', ']', '}', ',', ' null', '1', '"', '\u0000', '//c', '/* c */', 'x', ' [', '\u00a0', ';']
+HEADS = ['', ' ', '\n', 'x', ',', '//c\n', '\ufeff']
+
+
+def decode_cases(ctx):
+    r = ctx.rng
+    out = []
+    for d in DOCS:
+        for t in TAILS:
+            for ty in ("pet", "value"):
+                out.append({"op": "lex.decode", "in": {"body": d + t, "ty": ty}})
+        for h in HEADS:
+            out.append({"op": "lex.decode", "in": {"body": h + d, "ty": r.choice(["pet", "value"])}})
+    for _ in range(300 if ctx.quick else 6000):
+        out.append({"op": "lex.decode", "in": {"body": r.choice(HEADS) + r.choice(DOCS) + r.choice(TAILS) + r.choice(["", "", r.choice(TAILS)]), "ty": r.choice(["pet", "value"])}})
+    return out
+
+
 def run(ctx):
     ctx.translate(["status"])
     proofs_ok, driver_ok = ctx.build_lean(["Oas3Model.Props.C04"])
@@ -93,7 +116,7 @@ def run(ctx):
             ctx.leanchecker("Oas3Model.Props.C04")
     ctx.prepare = prepare
     if driver_ok and ctx.build_harness(["k_gen"]):
-        allc = vlib_corpus(ctx) + cases(ctx)
+        allc = vlib_corpus(ctx) + cases(ctx) + decode_cases(ctx)
         B = 400
         for i in range(0, len(allc), B):
             ctx.classify(ctx.evaluate(allc[i:i + B]), tie="K+E")
